@@ -48,7 +48,7 @@ theorem guarded_of_strong {c : Cfg} {p : PState} (h : Strong c p) (t : Tid) : Gu
       have h2 := hs.inv.idxName (c.loc t).key r (by rw [hs.idx]; exact hidx)
       rw [hs.names, ← hrid, h1] at h2
       exact Option.some.inj h2
-    exact (h.lf t).dk (Or.inr hpc) g hmem hkey
+    exact ((h.lf t).dk (Or.inr hpc)).1 g hmem hkey
   · intro hpc; exact (h.sf t).d3 hpc
 
 /-- the thread-local invariant is kept by the thread's own step -/
@@ -78,9 +78,11 @@ theorem lf_self {c : Cfg} {p : PState} {t : Tid} {ch : Choice} {s' : Shared} {l'
       rename_i hg
       constructor <;> simp [acqPc, afterWait]
       simp only [holdsNameW, Bool.and_eq_true, List.all_eq_true] at hg
-      intro g hgm hk
-      have := hg.2 g hgm
-      simpa [hk] using this
+      refine ⟨?_, ?_⟩
+      · intro g hgm hk
+        have := hg.2 g hgm
+        simpa [hk] using this
+      · simpa [holdsName] using hg.1
     · cases h; lf_triv
   case a1 =>
     split at h <;> cases h
